@@ -1,6 +1,138 @@
 import PgFdr.Json
+import PgFdr.Model.C09
 namespace PgFdr.Driver
 open Lean PgFdr
+
+namespace C09D
+open PgFdr.C09
+
+def errName : C09.Err → String
+  | .indexError => "index_error"
+  | .attributeError => "attribute_error"
+  | .unknownEnzyme => "unknown_enzyme"
+  | .keyError => "key_error"
+  | .unsupportedCsv => "unsupported_csv"
+
+def jS (j : Json) : R Str := do pure (← jstr j).toList
+def oS (s : Str) : Json := .str (String.ofList s)
+def oSs (l : List Str) : Json := .arr (l.map oS).toArray
+
+def jparse (j : Json) : R ParseId := do
+  match (← jstr j) with
+  | "first_space" => pure .firstSpace
+  | "uniprot" => pure .uniprot
+  | "gene" => pure .gene
+  | s => .error s!"unknown parse_id {s}"
+
+def jdb (j : Json) : R (Option Db) := do
+  match (← jstr j) with
+  | "target" => pure (some .target)
+  | "decoy" => pure (some .decoy)
+  | "concat" => pure (some .concat)
+  | _ => pure none
+
+/-- `{"enzyme","digestion","min","max","mc","special","contains_decoys"}`: the arguments of DigestionParams -/
+def jparams (j : Json) : R Params := do
+  pure (mkParams (← jstr (← jget j "enzyme")) (← jstr (← jget j "digestion")) (← jnat (← jget j "min"))
+    (← jnat (← jget j "max")) (← jnat (← jget j "mc")) (← jstr (← jget j "special")) (← jbool (← jget j "contains_decoys")))
+
+def jfiles (j : Json) : R (List (List Str)) := jlist (jlist jS) j
+
+def oMap (m : PMap) : Json := ofList (fun kv => Json.arr #[oS kv.1, oSs kv.2]) m
+def oSeqs (m : SeqMap) : Json := ofList (fun kv => Json.arr #[oS kv.1, oS kv.2]) m
+
+def oLookup (r : Except C09.Err (List Str)) : Json :=
+  match r with
+  | .ok l => oSs l
+  | .error e => ofErr (errName e)
+
+def oResult (res : PMap × SeqMap) (lookups : List Str) (pair : Bool := !res.2.isEmpty) : Json :=
+  obj [("map", oMap res.1), ("seqs", if pair then oSeqs res.2 else Json.null),
+       ("lookups", ofList (fun q => oLookup (getProteins res q)) lookups)]
+
+/-- `{"op":"pepmap","files":[[line…]…],"params":[{…}…],"parse_id":…,"lookups":[pep…]}` →
+    `{"map":[[key,[protein…]]…],"seqs":[[id,seq]…]|null,"lookups":[[protein…]|{"err"}…]}` -/
+def handlePepmap (j : Json) : R Json := do
+  let files ← jfiles (← jget j "files")
+  let ps ← jlist jparams (← jget j "params")
+  let parse ← jparse (← jget j "parse_id")
+  let lookups ← jlist jS (← jget j "lookups")
+  match fromParams parse files ps with
+  | .error e => pure (ofErr (errName e))
+  | .ok res => pure (oResult res lookups)
+
+/-- direct `get_peptide_to_protein_map(file, db, min_len, max_len, pre, not_post, post, digestion, miscleavages,
+    methionine_cleavage, use_hash_key, special_aas, parse_id)`:
+    `{"op":"pepmap1","lines":[…],"db":…,"min","max","pre":"KR","not_post":"P","post":"","digestion","mc","met","hash","special":"KR","parse_id","lookups"}` -/
+def handlePepmap1 (j : Json) : R Json := do
+  let lines ← jlist jS (← jget j "lines")
+  let db ← jdb (← jget j "db")
+  let parse ← jparse (← jget j "parse_id")
+  let lookups ← jlist jS (← jget j "lookups")
+  let rule : Generated.EnzymeRule :=
+    { name := "", pre := ← jS (← jget j "pre"), notPost := ← jS (← jget j "not_post"), post := ← jS (← jget j "post") }
+  let useHash ← jbool (← jget j "hash")
+  match db with
+  | none => pure (ofErr "unknown_db")
+  | some db =>
+    let a : MapArgs := { rule := rule, db := db, minL := ← jnat (← jget j "min"), maxL := ← jnat (← jget j "max"),
+                         mode := C08.modeOf (← jstr (← jget j "digestion")), mc := ← jnat (← jget j "mc"),
+                         met := ← jbool (← jget j "met"), useHash := useHash, special := ← jS (← jget j "special"), parse := parse }
+    match pepMapFile a lines with
+    | .error e => pure (ofErr (errName e))
+    | .ok res => pure (oResult (res.1, if useHash then res.2 else []) lookups useHash)
+
+/-- `{"op":"fasta","lines":[…],"db":…,"special":"KR","parse_id":…}` → `{"records":[[id,seq]…],"err":null|…}` -/
+def handleFasta (j : Json) : R Json := do
+  let lines ← jlist jS (← jget j "lines")
+  let db ← jdb (← jget j "db")
+  let parse ← jparse (← jget j "parse_id")
+  let special ← jS (← jget j "special")
+  match db with
+  | none => pure (ofErr "unknown_db")
+  | some db =>
+    let r := readFasta db special parse lines
+    pure (obj [("records", oSeqs r.1), ("err", match r.2 with | none => Json.null | some e => .str (errName e))])
+
+/-- `{"op":"ibaq","files","params","parse_id"}` → `{"counts":[[protein,n]…]}` -/
+def handleIbaq (j : Json) : R Json := do
+  let files ← jfiles (← jget j "files")
+  let ps ← jlist jparams (← jget j "params")
+  let parse ← jparse (← jget j "parse_id")
+  match numIbaqPeptides parse files ps with
+  | .error e => pure (ofErr (errName e))
+  | .ok c => pure (obj [("counts", ofList (fun kv => Json.arr #[oS kv.1, ofNat kv.2]) c)])
+
+def jmap (j : Json) : R PMap := jlist (fun e => do
+  match e with
+  | .arr #[k, v] => pure ((← jS k), (← jlist jS v))
+  | _ => .error "expected [key, [proteins]]") j
+
+/-- `{"op":"mapfile","map":[[pep,[protein…]]…]}` → `{"text":…,"back":[[pep,[protein…]]…]}`: the written file and
+    what reading it returns -/
+def handleMapfile (j : Json) : R Json := do
+  let m ← jmap (← jget j "map")
+  match writeMap m with
+  | .error e => pure (ofErr (errName e))
+  | .ok t => match readMap t with
+    | .error e => pure (obj [("text", oS t), ("back", ofErr (errName e))])
+    | .ok b => pure (obj [("text", oS t), ("back", oMap b)])
+
+/-- `{"op":"mapread","text":…}` → `{"map":…}` -/
+def handleMapread (j : Json) : R Json := do
+  match readMap (← jS (← jget j "text")) with
+  | .error e => pure (ofErr (errName e))
+  | .ok b => pure (obj [("map", oMap b)])
+
+/-- `{"op":"swap","seq":…,"special":…}` → `{"decoy":…}` -/
+def handleSwap (j : Json) : R Json := do
+  pure (obj [("decoy", oS (decoySeq (← jS (← jget j "special")) (← jS (← jget j "seq"))))])
+
+end C09D
+
 /-- protocol handlers of property C09: (op name, handler) -/
-def handlersC09 : List (String × (Json → R Json)) := []
+def handlersC09 : List (String × (Json → R Json)) :=
+  [("pepmap", C09D.handlePepmap), ("pepmap1", C09D.handlePepmap1), ("fasta", C09D.handleFasta),
+   ("ibaq", C09D.handleIbaq), ("mapfile", C09D.handleMapfile), ("mapread", C09D.handleMapread),
+   ("swap", C09D.handleSwap)]
 end PgFdr.Driver
